@@ -436,12 +436,37 @@ def fs_failure_sessions(rng, res, count):
             res["violations"].append(("tree-changed-by-failed-request", f"{which} failed and yet the served tree changed", rep))
 
 
+def dir_target_corpus():
+    """Sessions whose request path names a DIRECTORY of the tree, or the root itself (fixed: the model's tree has no empty
+    directories, so these run on a tree where the directories hold files throughout). A commit onto a directory fails and says
+    so; a STALE CAS against it is a conflict like any other — the copy lands beside it and can be fetched."""
+    tree = {"d/e/i": b"deep", "d/h": b"hello hub\n"}
+    out = []
+    for target in ("d", "d/e", "", "."):
+        for c in (b"x", b"A" * 300):
+            h = bytes.fromhex(blake3_hex([c])[0])
+            stale = bytes.fromhex(blake3_hex([b"something else"])[0])
+            cc = f"{target}.conflict-{h.hex()[:12]}"
+            parts = [(frame(req_hello()), "hello"),
+                     (frame(req_put(target, None, len(c), h)) + c, f"put {target!r} (a directory) expected=None"),
+                     (frame(req_put(target, stale, len(c), h)) + c, f"put {target!r} (a directory) stale expected"),
+                     (frame(req_list()), "list"),
+                     (frame(req_get(cc)), f"get {cc}"),
+                     (frame(req_put(target, stale, len(c), h)) + c, f"put {target!r} again (same bytes: same conflict copy)"),
+                     (frame(req_delete(target, None)), f"delete {target!r} expected=None"),
+                     (frame(req_get(target)), f"get {target!r}"),
+                     (frame(req_list()), "list"), (frame(req_bye()), "bye")]
+            out.append((dict(tree), MAGIC + b"".join(p_ for p_, _ in parts), "corpus-dir-target", [d_ for _, d_ in parts]))
+    return out
+
+
 def run_c12(pid, tier, seed, rundir, model_run, res, count):
     rng = Rng(seed ^ 0xC12)
     fs_failure_sessions(rng, res, count)
     n = 160 * (12 if tier == "thorough" else 1)
     dec = ReqDecoder()
     ops, impl, reps = [], [], []
+    corpus = dir_target_corpus()
     for i in range(n):
         tree = {}
         for _ in range(rng.below(4)):
@@ -449,6 +474,8 @@ def run_c12(pid, tier, seed, rundir, model_run, res, count):
         if any(k.startswith(o + "/") or o.startswith(k + "/") for k in tree for o in tree if k != o):
             tree = {}
         stream, kind, desc = gen_stream(rng, tree)
+        if i < len(corpus):
+            tree, stream, kind, desc = corpus[i]
         count("stream/" + kind.split("@")[0].split("=")[0])
         with Sandbox("C12") as sb:
             root = sb.path("hub")
